@@ -99,6 +99,12 @@ func Load(repo string, overlay map[string][]byte) (*Program, error) {
 	return P, nil
 }
 
+type SourceOverride struct {
+	File string `json:"file"`
+	Old  string `json:"old"`
+	New  string `json:"new"`
+}
+
 type Obligation struct {
 	Prop     string   `json:"prop"`
 	Name     string   `json:"name"`
@@ -117,6 +123,9 @@ type Obligation struct {
 	Params map[string]int `json:"params"`
 	ThoroughParams map[string]int `json:"thorough_params"`
 	Merge []string `json:"merge"` // side-effect-free callees whose paths are merged into ite terms
+	// SourceOverrides: literal single-occurrence replacements in /repo source files, applied in the overlay for the
+	// symbolic run and the native replays of this property (used to shrink iteration-count constants: a stated bound)
+	SourceOverrides []SourceOverride `json:"source_overrides"`
 	mergeM map[string]bool
 	tierRun string
 }
